@@ -330,7 +330,7 @@ func (l *ArrayListOfValue) SetAt(index int, val Value) {
 }
 
 func (l *ArrayListOfValue) SetAtVal(index int, val Value) Value {
-	l.SetAtVal(index, val)
+	l.SetAt(index, val)
 	return Undefined
 }
 
